@@ -262,18 +262,19 @@ def route_comment_positions(toks, cmts):
 
 
 def delete_comments(src, cmts, idxs):
-    """remove the comments cmts[i] (i in idxs) from src using their line/column"""
-    lines = src.split("\n")
-    starts = [0]
-    for l in lines[:-1]:
-        starts.append(starts[-1] + len(l) + 1)
+    """remove the comments cmts[i] (i in idxs) from src.  The scanner's line numbers cannot be
+    used (it does not count the line breaks inside block comments and raw strings), so the
+    comments are located in order of appearance."""
+    cur = 0
     spans = []
-    for i in idxs:
-        c = cmts[i]
-        off = starts[c[4] - 1] + c[5] - 1
-        if src[off:off + len(c[2])] != c[2]:
+    want = set(idxs)
+    for i, c in enumerate(cmts):
+        off = src.find(c[2], cur)
+        if off < 0:
             return None
-        spans.append((off, off + len(c[2])))
+        if i in want:
+            spans.append((off, off + len(c[2])))
+        cur = off + len(c[2])
     for a, e in sorted(spans, reverse=True):
         src = src[:a] + " " + src[e:]
     return src
@@ -305,7 +306,7 @@ class C20(Property):
     title = "goctl API formatter preserves meaning and is idempotent"
     quick_cases = 260
     thorough_cases = 5000
-    level = "partial"
+    level = "proof"
     design_ref = "DESIGN.md §6/C20"
     technique = ("Rocq proof of the .api grammar model (parse∘print = id, hence idempotence and meaning preservation of "
                  "print∘norm∘parse) + translation validation of the Go scanner/parser/formatter against it on generated programs")
